@@ -34,6 +34,9 @@ Ops(s) ==
             t \in Names, i \in 1..MaxRows, j \in 1..C, v \in Vals \ {0}}
   \cup {[op |-> "fill", tgt |-> t, v |-> v] : t \in Names, v \in Vals \ {0}}
   \cup {[op |-> "clone_to_other", tgt |-> t] : t \in Names}
+  \cup {[op |-> "clone_from", tgt |-> t] : t \in Names}
+  \cup {[op |-> "iter_ends", tgt |-> "a", pat |-> p, mutable |-> mu] :
+            p \in {<<"b", "f", "b", "f">>, <<"f", "b", "b">>, <<"b", "b", "b", "b">>}, mu \in BOOLEAN}
   \cup {[op |-> "iter_mut_bump", tgt |-> "a"], [op |-> "iter", tgt |-> "a"],
         [op |-> "iter_rev", tgt |-> "a"], [op |-> "eq", tgt |-> "a"],
         [op |-> "reserve", tgt |-> "a", n |-> 2]}
@@ -50,7 +53,8 @@ IStep(is, o) ==
     [] o.op = "resize"         -> [is EXCEPT ![o.tgt] = IResize(m, o.r)]
     [] o.op = "set"            -> [is EXCEPT ![o.tgt][o.i][o.j] = o.v]
     [] o.op = "fill"           -> [is EXCEPT ![o.tgt] = IFill(m, o.v)]
-    [] o.op = "clone_to_other" -> [is EXCEPT ![Other(o.tgt)] = [i \in 1..Len(m) |-> PadRow(m[i])]]
+    [] o.op \in {"clone_to_other", "clone_from"}
+                               -> [is EXCEPT ![Other(o.tgt)] = [i \in 1..Len(m) |-> PadRow(m[i])]]
     [] o.op = "iter_mut_bump"  -> [is EXCEPT ![o.tgt] =
                                     [i \in 1..Len(m) |-> [j \in 1..Stride |->
                                         IF j <= C THEN (m[i][j] + 1) % K ELSE m[i][j]]]]
@@ -75,8 +79,8 @@ New     == \E o \in Ops(st) : o.op \in {"new", "with_capacity"} /\ Do(o)
 Resize  == \E o \in Ops(st) : o.op = "resize" /\ Do(o)
 SetC    == \E o \in Ops(st) : o.op = "set" /\ Do(o)
 Fill    == \E o \in Ops(st) : o.op = "fill" /\ Do(o)
-CloneOp == \E o \in Ops(st) : o.op = "clone_to_other" /\ Do(o)
-Observe == \E o \in Ops(st) : o.op \in {"iter", "iter_rev", "eq", "iter_mut_bump", "reserve"} /\ Do(o)
+CloneOp == \E o \in Ops(st) : o.op \in {"clone_to_other", "clone_from"} /\ Do(o)
+Observe == \E o \in Ops(st) : o.op \in {"iter", "iter_rev", "eq", "iter_mut_bump", "reserve", "iter_ends"} /\ Do(o)
 
 Next == New \/ Resize \/ SetC \/ Fill \/ CloneOp \/ Observe
 
@@ -98,11 +102,26 @@ NewDefault == last.op.op \in {"resize", "new", "with_capacity"} =>
               \A i \in 1..Len(st[last.op.tgt]) :
                  (last.op.op # "resize" \/ i > Len(last.pre[last.op.tgt]))
                     => st[last.op.tgt][i] = ConstRow(C, 0)
-CloneEq  == last.op.op = "clone_to_other" => st.a = st.b
-Untouched == last.op.op # "clone_to_other" /\ last.op.op # "init"
+CloneEq  == last.op.op \in {"clone_to_other", "clone_from"} => st.a = st.b
+Untouched == last.op.op \notin {"clone_to_other", "clone_from", "init"}
                => st[Other(last.op.tgt)] = last.pre[Other(last.op.tgt)]
 IterOrder == /\ last.op.op = "iter" => last.obs = st.a
              /\ last.op.op = "iter_rev" => \A i \in 1..Len(st.a) : last.obs[i] = st.a[Len(st.a) + 1 - i]
+
+\* iteration from both ends visits exactly the rows, each once: the rows taken from the front, followed by the rows
+\* taken from the back in reverse, are the first / last rows of the table; when the requests outnumber the rows, the
+\* whole table
+EndsExact ==
+  last.op.op = "iter_ends" =>
+    LET w  == last.obs.y
+        pt == last.op.pat
+        fr == SelectSeq([k \in 1..Len(w) |-> <<pt[k], w[k]>>], LAMBDA x : x[1] = "f" /\ x[2] # <<>>)
+        bk == SelectSeq([k \in 1..Len(w) |-> <<pt[k], w[k]>>], LAMBDA x : x[1] = "b" /\ x[2] # <<>>)
+        n  == Len(st.a)
+    IN /\ Len(fr) + Len(bk) + last.obs.n = n
+       /\ \A i \in 1..Len(fr) : fr[i][2] = st.a[i]
+       /\ \A i \in 1..Len(bk) : bk[i][2] = st.a[n + 1 - i]
+       /\ (Len(pt) >= n => last.obs.n = 0)
 
 \* one REPLAY line per complete history
 EmitReplay == (Emit /\ Len(hist) = MaxDepth) => PrintT("REPLAY " \o ToJson(hist))
